@@ -241,11 +241,26 @@ def materialise(desc: dict) -> Built:
         cls = type(shown, bases, {"__module__": modname, "__qualname__": shown})
         ns[p["name"]] = cls
         setattr(mod, p["name"], cls)
-    # 3. fields (real type objects, so no string resolution is involved)
+    # 3. fields: real type objects, or - desc["_string_annotations"], what `from __future__ import annotations` and quoted
+    # forward references give - STRINGS that the library's typing.get_type_hints call evaluates in the module's namespace,
+    # anew on every call (so a refinement is a new metahandler object, and an Annotated type a new type object, each time)
     field_types = {}
+    thunks: list = []
+
+    def _gev_type(i):
+        return build_type(thunks[i], ns)
+
+    if desc.get("_string_annotations"):
+        setattr(mod, "_gev_type", _gev_type)
     for p in desc["prods"]:
         cls = ns[p["name"]]
-        fields = [(fn, build_type(ft, ns)) for fn, ft in p["fields"]]
+        if desc.get("_string_annotations"):
+            fields = []
+            for fn, ft in p["fields"]:
+                thunks.append(ft)
+                fields.append((fn, ns[ft[1]].__name__ if ft[0] == "ref" and ns[ft[1]].__name__ == ft[1] else f"_gev_type({len(thunks) - 1})"))
+        else:
+            fields = [(fn, build_type(ft, ns)) for fn, ft in p["fields"]]
         field_types[p["name"]] = [(fn, ft) for fn, ft in p["fields"]]
         if p.get("dataclass", True):
             cls.__annotations__ = {fn: ty for fn, ty in fields}
